@@ -54,7 +54,7 @@ TRIGGER_KINDS = {
 
 def compile_trigger(
     trigger: s_triggers.Trigger,
-    affected: set[tuple[s_objtypes.ObjectType, irast.MutatingStmt]],
+    affected: Collection[tuple[s_objtypes.ObjectType, irast.MutatingStmt]],
     all_typs: set[s_objtypes.ObjectType],
     *,
     ctx: context.ContextLevel,
@@ -121,9 +121,11 @@ def compile_trigger(
         trigger_set = dispatch.compile(trigger_ast, ctx=sctx)
 
     typeref = typegen.type_to_typeref(source, env=ctx.env)
-    taffected = {
+    # keep the order of the DML statements: the SQL compiler emits the
+    # overlays of the affected statements in this order
+    taffected = tuple(
         (typegen.type_to_typeref(t, env=ctx.env), ir) for t, ir in affected
-    }
+    )
     tall = {
         typegen.type_to_typeref(t, env=ctx.env) for t in all_typs
     }
@@ -152,7 +154,7 @@ def compile_triggers_phase(
     trigger_map: dict[
         s_triggers.Trigger,
         tuple[
-            set[tuple[s_objtypes.ObjectType, irast.MutatingStmt]],
+            dict[tuple[s_objtypes.ObjectType, irast.MutatingStmt], None],
             set[s_objtypes.ObjectType],
         ],
     ] = {}
@@ -183,7 +185,7 @@ def compile_triggers_phase(
             for trigger in subtype.get_relevant_triggers(kind, schema):
                 mro = (trigger, *trigger.get_ancestors(schema).objects(schema))
                 base = mro[-1]
-                tmap, all_typs = trigger_map.setdefault(base, (set(), set()))
+                tmap, all_typs = trigger_map.setdefault(base, ({}, set()))
                 # N.B: If the *base type* of the DML appears, that
                 # suffices, because it covers everything, and we don't
                 # need to duplicate.  This is a specific interaction
@@ -192,7 +194,7 @@ def compile_triggers_phase(
                 # all subtypes, but processing a child does not cover
                 # a grandchild.
                 if (stype, stmt) not in tmap:
-                    tmap.add((subtype, stmt))
+                    tmap[subtype, stmt] = None
                 all_typs.add(subtype)
 
     # sort these by name just to avoid weird nondeterminism
